@@ -245,7 +245,7 @@ pub fn run_deadline(sim: &Sim, _idx: u64) {
         for (i, c) in calls.iter().enumerate() {
             handler.add_script(i as u64 + 1, Script { msgs: vec![b"pong".to_vec()], latency_us: c.latency.map(|l| l.as_micros() as u64).unwrap_or(u64::MAX), ..Default::default() });
         }
-        let _srv = spawn_server::<std::future::Pending<()>>(&handler, &CompCfg { server_accept: vec![], server_send: vec![], client_send: None, client_accept: vec![] }, &ServerOpts { timeout: server, ..Default::default() }, rx, None);
+        let _srv = spawn_server::<std::future::Pending<()>>(&handler, &CompCfg { server_accept: vec![], server_send: vec![], client_send: None, client_accept: vec![] }, &ServerOpts { timeout: server, user_layer: sim.chance(1, 3), ..Default::default() }, rx, None);
         let ch = match connect(&ClientOpts { timeout: endpoint, lazy: sim.chance(1, 2), ..Default::default() }, connector.clone()).await {
             Ok(c) => c,
             Err(e) => return Err(format!("connect failed: {e}")),
